@@ -51,8 +51,8 @@ structure St where
   flags : List (Nat × Flags) := []
   reloaded : Bool := false
   allUnclaimed : Bool := false
-  recA : Array (String × Option String × Flags) := #[]   -- phase A: non-reload ops with result and flags of the resource
-  posB : Nat := 0
+  recA : Array (Option String × Flags) := #[]   -- phase A: every entry's result and the flags of its resource at that time
+  recOps : Array (List String) := #[]          -- model side: the non-reload ops of phase A (replayed by `phase B`)
 
 def lookup {α} (d : α) (xs : List (Nat × α)) (k : Nat) : α := ((xs.find? (·.1 == k)).map (·.2)).getD d
 def assoc {α} (xs : List (Nat × α)) (k : Nat) (v : α) : List (Nat × α) := (k, v) :: xs.filter (·.1 != k)
@@ -120,13 +120,12 @@ def doLoad (oracle : Bool) (s : St) (modl : String) (re : Bool) (only : Option N
       ({ s with flow := m, flags := fl, flowRaw := raw }, none)
   else (s, some "bad-op")
 
-/-- `model` step -/
-def stepModel (s : St) (ts : List String) (_ : String) : St × Option String :=
+/-- one op on the model (no phases) -/
+def stepCore (s : St) (ts : List String) : St × Option String :=
   match ts with
   | ["t", t] => match t.toNat? with
     | some t => ({ s with now := t }, none)
     | none => (s, some "bad-op")
-  | ["phase", "B"] => ({}, none)
   | ["e", x, err] => match x.toNat?, err.toNat? with
     | some x, some err => let (s, r) := entry s x (err != 0); (s, some r)
     | _, _ => (s, some "bad-op")
@@ -146,43 +145,52 @@ def isReload (ts : List String) : Bool := match ts with
   | op :: _ => op.endsWith ".reload" || op.endsWith ".reloadres"
   | [] => false
 
-/-- `oracle` step: reads the implementation's trace -/
+/-- `model` step.  `phase B` runs the recorded ops of phase A that are not reloads again, from scratch, and answers with
+    the decisions of that second run. -/
+def stepModel (s : St) (ts : List String) (_ : String) : St × Option String :=
+  match ts with
+  | ["phase", "B"] =>
+    let (_, rs) := s.recOps.foldl (fun (acc : St × Array String) o =>
+      let (s', r) := stepCore acc.1 o
+      (s', match o, r with | "e" :: _, some r => acc.2.push r | _, _ => acc.2)) (({} : St), #[])
+    (s, some (if rs.isEmpty then "-" else ";".intercalate rs.toList))
+  | _ =>
+    let (s', r) := stepCore s ts
+    (if isReload ts || r == some "bad-op" then s' else { s' with recOps := s.recOps.push ts }, r)
+
+/-- `oracle` step: reads the implementation's trace.  Phase A: follow the rule lists (through the model's managers) and
+    remember every decision with the claim flags of its resource; the `phase B` line carries the decisions of the run
+    without reloads, which are compared one by one. -/
 def stepOracle0 (s : St) (ts : List String) (line : String) : St × Option String :=
   let res := resPart line
   match ts with
-  | ["phase", "B"] => ({ s with phaseB := true, posB := 0 }, none)
+  | ["phase", "B"] =>
+    let rb := match res with
+      | some "-" => []
+      | some r => r.splitOn ";"
+      | none => []
+    if rb.length != s.recA.size then (s, some s!"bad count {rb.length}/{s.recA.size}") else
+    let verdicts := (s.recA.toList.zip rb).map fun ((ra, fl), b) =>
+      if ra == some b then 0 else if fl.unclaimed then 0 else if fl.steal then 1 else if fl.warm then 2 else 3
+    let firstBad := ((s.recA.toList.zip rb).zip verdicts).findIdx? fun p => p.2 == 3
+    match firstBad with
+    | some i => (s, some s!"bad decision {i} differs")
+    | none =>
+      if verdicts.contains 1 then (s, some "known:reuse-steals-controller")
+      else if verdicts.contains 2 then (s, some "known:warmup-reload-resets")
+      else (s, some "ok")
+  | ["e", x, _] =>
+    let x := x.toNat?.getD 0
+    let f : Flags := lookup ({} : Flags) s.flags x
+    let f := if s.allUnclaimed then { f with unclaimed := true } else f
+    ({ s with recA := s.recA.push (res, f) }, some "?")
+  | ["t", _] => (s, none)
   | _ =>
-  if s.phaseB then
-    if isReload ts then (s, some "bad-op") else
-    match s.recA[s.posB]? with
-    | none => (s, some "bad-op")
-    | some (opA, resA, fl) =>
-      let s := { s with posB := s.posB + 1 }
-      if opA != opPart line then (s, some "bad-op") else
-      match ts with
-      | "e" :: _ =>
-        if resA == res then (s, some "ok")
-        else if fl.unclaimed then (s, some "?")
-        else if fl.steal then (s, some "known:reuse-steals-controller")
-        else if fl.warm then (s, some "known:warmup-reload-resets")
-        else (s, some s!"bad with-reload:{resA.getD "-"}")
-      | _ => (s, none)
-  else
-    -- phase A: follow the rule lists (through the model's managers), remember every non-reload op
+    let re := isReload ts
     match ts with
-    | ["e", x, _] =>
-      let x := x.toNat?.getD 0
-      let f : Flags := lookup ({} : Flags) s.flags x
-      let f := if s.allUnclaimed then { f with unclaimed := true } else f
-      ({ s with recA := s.recA.push (opPart line, res, f) }, some "?")
-    | ["t", _] => ({ s with recA := s.recA.push (opPart line, res, ({} : Flags)) }, none)
-    | _ =>
-      let re := isReload ts
-      let (s2, r2) := (match ts with
-        | [op, arg] => doLoad true s ((op.splitOn ".").headD "") re none arg
-        | [op, x, arg] => doLoad true s ((op.splitOn ".").headD "") re x.toNat? arg
-        | _ => (s, some "bad-op"))
-      if re then (s2, r2) else ({ s2 with recA := s2.recA.push (opPart line, res, ({} : Flags)) }, r2)
+    | [op, arg] => doLoad true s ((op.splitOn ".").headD "") re none arg
+    | [op, x, arg] => doLoad true s ((op.splitOn ".").headD "") re x.toNat? arg
+    | _ => (s, some "bad-op")
 
 def stepOracle (s : St) (ts : List String) (line : String) : St × Option String :=
   let (s', r) := stepOracle0 s ts line
